@@ -120,15 +120,28 @@ func (r *run) local(a *actor, d *dtState, x api, e Ev) {
 		panic(abortRun{})
 	}
 	e.V = orig
-	if len(dr.pokes) > 0 && msg == "" && !r.inTx {
-		// the application changes its variables afterwards: the replica must not notice
-		before := r.viewOf(d)
+	if r.on("wire") && msg == "" {
+		// The application goes on using its variables: what it passed by pointer changes, and the slice it
+		// passed as variadic arguments is refilled for the next call. The replica (and, inside a
+		// transaction, the operations waiting to be encoded at commit) must not notice.
+		before := ""
+		if !r.inTx {
+			before = r.viewOf(d)
+		}
 		for _, poke := range dr.pokes {
 			poke()
 		}
-		r.probe("pointer-values-poked")
-		if after := r.viewOf(d); after != before {
-			r.fail("wire", "C14.value-captured", d.kind, "%s: after %s on %s the application changed a variable it had passed by pointer and the replica changed with it:\n  before: %s\n  after : %s", a.name, e.Op, d.key, clip(before, 300), clip(after, 300))
+		for i := range dr.vals {
+			dr.vals[i] = "!refilled-argument-slot"
+		}
+		if len(dr.pokes) > 0 {
+			r.probe("pointer-values-poked")
+		}
+		r.probe("argument-slice-refilled")
+		if !r.inTx {
+			if after := r.viewOf(d); after != before {
+				r.fail("wire", "C14.value-captured", d.kind, "%s: after %s on %s the application changed a variable it had passed by pointer (or refilled the slice it had passed as arguments) and the replica changed with it:\n  before: %s\n  after : %s", a.name, e.Op, d.key, clip(before, 300), clip(after, 300))
+			}
 		}
 	}
 	if r.on("wire") && msg == "" && !r.inTx {
